@@ -102,6 +102,8 @@ Inductive gco_prog :=
 (* what a _ProxyLookup fallback returns for an unbound proxy *)
 Inductive fbkind := FbNone | FbFalse | FbTrue | FbUnboundRepr | FbEmptyList | FbTypeDoc | FbWrapped | FbTypeSelf | FbOther.
 Record pentry := mkpentry { pe_id : nat; pe_has_f : bool; pe_fallback : fbkind; pe_is_attr : bool; pe_iop : bool }.
+(* what the bound in-place operator of _ProxyIOp returns after calling f(obj, other) *)
+Inductive iop_ret := RetInstance | RetObject.
 (* callbacks run by ClosingIterator.close(), in order *)
 Inductive close_cb := CbIterableClose | CbGiven.
 
